@@ -17,125 +17,118 @@ open VL
 set_option linter.unusedSimpArgs false
 
 /-- the scan step of `_find_best_votes` -/
-def fbStep (cand : Cand) (acc : List SBallot × Rat) (bw : SBallot × Rat) : List SBallot × Rat :=
+def fbStep (cand : Cand) (acc : List SBallot × Option Rat) (bw : SBallot × Rat) : List SBallot × Option Rat :=
   match ballotScore bw.1 cand with
   | none => acc
-  | some s => if s > acc.2 then ([bw.1], s) else if s = acc.2 then (acc.1 ++ [bw.1], acc.2) else acc
+  | some s =>
+    match acc.2 with
+    | none => ([bw.1], some s)
+    | some b => if s > b then ([bw.1], some s) else if s = b then (acc.1 ++ [bw.1], some b) else acc
 
 /-- the ballots of `cv` that grade `cand` exactly `m` -/
 def gradeGroup (cv : WProfile) (cand : Cand) (m : Rat) : List SBallot :=
   (cv.filter (fun bw => ballotScore bw.1 cand = some m)).map (·.1)
 
-def FbInv (cand : Cand) (start : Rat) (pre : WProfile) (acc : List SBallot × Rat) : Prop :=
-  (∀ bw ∈ pre, ∀ s, ballotScore bw.1 cand = some s → s ≤ acc.2) ∧
-  acc.1 = gradeGroup pre cand acc.2 ∧
-  (acc.2 = start ∨ ∃ bw ∈ pre, ballotScore bw.1 cand = some acc.2)
+def FbInv (cand : Cand) (pre : WProfile) (acc : List SBallot × Option Rat) : Prop :=
+  match acc.2 with
+  | none => acc.1 = [] ∧ ∀ bw ∈ pre, ballotScore bw.1 cand = none
+  | some m =>
+    (∀ bw ∈ pre, ∀ s, ballotScore bw.1 cand = some s → s ≤ m) ∧
+    acc.1 = gradeGroup pre cand m ∧ ∃ bw ∈ pre, ballotScore bw.1 cand = some m
 
-theorem fbInv_step {cand : Cand} {start : Rat} {pre : WProfile} {acc : List SBallot × Rat}
-    (h : FbInv cand start pre acc) (bw : SBallot × Rat) : FbInv cand start (pre ++ [bw]) (fbStep cand acc bw) := by
-  obtain ⟨h1, h2, h3⟩ := h
+theorem fbInv_step {cand : Cand} {pre : WProfile} {acc : List SBallot × Option Rat}
+    (h : FbInv cand pre acc) (bw : SBallot × Rat) : FbInv cand (pre ++ [bw]) (fbStep cand acc bw) := by
+  obtain ⟨l, o⟩ := acc
   unfold fbStep
   cases hs : ballotScore bw.1 cand with
   | none =>
     simp only
-    refine ⟨?_, ?_, ?_⟩
-    · intro b hb s hbs
+    cases o with
+    | none =>
+      obtain ⟨h1, h2⟩ := h
+      refine ⟨h1, ?_⟩
+      intro b hb
       rcases List.mem_append.mp hb with hb | hb
-      · exact h1 b hb s hbs
-      · simp at hb; subst hb; rw [hs] at hbs; cases hbs
-    · rw [h2]; unfold gradeGroup
-      simp [List.filter_append, List.filter_cons, hs]
-    · rcases h3 with h3 | ⟨b, hb, hbs⟩
-      · exact Or.inl h3
-      · exact Or.inr ⟨b, List.mem_append_left _ hb, hbs⟩
+      · exact h2 b hb
+      · simp at hb; subst hb; exact hs
+    | some m =>
+      obtain ⟨h1, h2, b0, hb0, hb0s⟩ := h
+      refine ⟨?_, ?_, b0, List.mem_append_left _ hb0, hb0s⟩
+      · intro b hb s hbs
+        rcases List.mem_append.mp hb with hb | hb
+        · exact h1 b hb s hbs
+        · simp at hb; subst hb; rw [hs] at hbs; cases hbs
+      · simp only at h2 ⊢
+        rw [h2]; unfold gradeGroup
+        simp [List.filter_append, List.filter_cons, hs]
   | some s =>
     simp only
-    by_cases hgt : s > acc.2
-    · rw [if_pos hgt]
-      refine ⟨?_, ?_, ?_⟩
+    cases o with
+    | none =>
+      obtain ⟨_, h2⟩ := h
+      refine ⟨?_, ?_, bw, by simp, hs⟩
       · intro b hb s' hbs
         rcases List.mem_append.mp hb with hb | hb
-        · exact le_of_lt (lt_of_le_of_lt (h1 b hb s' hbs) hgt)
+        · rw [h2 b hb] at hbs; cases hbs
         · simp at hb; subst hb; rw [hs] at hbs; injection hbs with hbs; rw [hbs]
       · unfold gradeGroup
         have : pre.filter (fun b => ballotScore b.1 cand = some s) = [] := by
           rw [List.filter_eq_nil_iff]
           intro b hb
-          simp only [decide_eq_true_eq]
-          intro hbs
-          exact absurd (h1 b hb s hbs) (not_le.mpr hgt)
+          simp [h2 b hb]
         simp [List.filter_append, this, List.filter_cons, hs]
-      · exact Or.inr ⟨bw, by simp, hs⟩
-    · rw [if_neg hgt]
-      by_cases heq : s = acc.2
-      · rw [if_pos heq]
-        refine ⟨?_, ?_, ?_⟩
+    | some m =>
+      obtain ⟨h1, h2, b0, hb0, hb0s⟩ := h
+      simp only at h2
+      show FbInv cand (pre ++ [bw])
+        (if s > m then ([bw.1], some s) else if s = m then (l ++ [bw.1], some m) else (l, some m))
+      by_cases hgt : s > m
+      · rw [if_pos hgt]
+        refine ⟨?_, ?_, bw, by simp, hs⟩
         · intro b hb s' hbs
           rcases List.mem_append.mp hb with hb | hb
-          · exact h1 b hb s' hbs
-          · simp at hb; subst hb; rw [hs] at hbs; injection hbs with hbs; rw [← hbs, heq]
-        · simp only
-          rw [h2]; unfold gradeGroup
-          simp [List.filter_append, List.filter_cons, hs, heq]
-        · exact Or.inr ⟨bw, by simp, by rw [hs, heq]⟩
-      · rw [if_neg heq]
-        refine ⟨?_, ?_, ?_⟩
-        · intro b hb s' hbs
-          rcases List.mem_append.mp hb with hb | hb
-          · exact h1 b hb s' hbs
-          · simp at hb; subst hb; rw [hs] at hbs; injection hbs with hbs
-            rw [← hbs]; exact not_lt.mp hgt
-        · rw [h2]; unfold gradeGroup
-          have : ¬ (some s = some acc.2) := fun h => heq (by injection h)
-          simp [List.filter_append, List.filter_cons, hs, this]
-        · rcases h3 with h3 | ⟨b, hb, hbs⟩
-          · exact Or.inl h3
-          · exact Or.inr ⟨b, List.mem_append_left _ hb, hbs⟩
+          · exact le_of_lt (lt_of_le_of_lt (h1 b hb s' hbs) hgt)
+          · simp at hb; subst hb; rw [hs] at hbs; injection hbs with hbs; rw [hbs]
+        · unfold gradeGroup
+          have : pre.filter (fun b => ballotScore b.1 cand = some s) = [] := by
+            rw [List.filter_eq_nil_iff]
+            intro b hb
+            simp only [decide_eq_true_eq]
+            intro hbs
+            exact absurd (h1 b hb s hbs) (not_le.mpr hgt)
+          simp [List.filter_append, this, List.filter_cons, hs]
+      · rw [if_neg hgt]
+        by_cases heq : s = m
+        · rw [if_pos heq]
+          refine ⟨?_, ?_, b0, List.mem_append_left _ hb0, hb0s⟩
+          · intro b hb s' hbs
+            rcases List.mem_append.mp hb with hb | hb
+            · exact h1 b hb s' hbs
+            · simp at hb; subst hb; rw [hs] at hbs; injection hbs with hbs; rw [← hbs, heq]
+          · simp only
+            rw [h2]; unfold gradeGroup
+            simp [List.filter_append, List.filter_cons, hs, heq]
+        · rw [if_neg heq]
+          refine ⟨?_, ?_, b0, List.mem_append_left _ hb0, hb0s⟩
+          · intro b hb s' hbs
+            rcases List.mem_append.mp hb with hb | hb
+            · exact h1 b hb s' hbs
+            · simp at hb; subst hb; rw [hs] at hbs; injection hbs with hbs
+              rw [← hbs]; exact not_lt.mp hgt
+          · simp only
+            rw [h2]; unfold gradeGroup
+            have : ¬ (some s = some m) := fun h => heq (by injection h)
+            simp [List.filter_append, List.filter_cons, hs, this]
 
-theorem fbInv_foldl {cand : Cand} {start : Rat} (suf : WProfile) :
-    ∀ (pre : WProfile) (acc : List SBallot × Rat), FbInv cand start pre acc →
-      FbInv cand start (pre ++ suf) (suf.foldl (fbStep cand) acc) := by
+theorem fbInv_foldl {cand : Cand} (suf : WProfile) :
+    ∀ (pre : WProfile) (acc : List SBallot × Option Rat), FbInv cand pre acc →
+      FbInv cand (pre ++ suf) (suf.foldl (fbStep cand) acc) := by
   induction suf with
   | nil => intro pre acc h; simpa using h
   | cons x xs ih =>
     intro pre acc h
     have := ih (pre ++ [x]) (fbStep cand acc x) (fbInv_step h x)
     simpa using this
-
-theorem listMin_le : ∀ {l : List Rat} {m : Rat}, listMin l = .ok m → ∀ x ∈ l, m ≤ x := by
-  intro l m h x hx
-  cases l with
-  | nil => cases hx
-  | cons y ys =>
-    simp only [listMin] at h
-    injection h with h
-    subst h
-    have key : ∀ (zs : List Rat) (a : Rat), (zs.foldl (fun m y => if y < m then y else m) a ≤ a) ∧
-        ∀ z ∈ zs, zs.foldl (fun m y => if y < m then y else m) a ≤ z := by
-      intro zs
-      induction zs with
-      | nil => intro a; simp
-      | cons z zs' ih =>
-        intro a
-        simp only [List.foldl_cons]
-        by_cases hz : z < a
-        · rw [if_pos hz]
-          obtain ⟨i1, i2⟩ := ih z
-          refine ⟨le_trans i1 (le_of_lt hz), ?_⟩
-          intro w hw
-          rcases List.mem_cons.mp hw with rfl | hw
-          · exact i1
-          · exact i2 w hw
-        · rw [if_neg hz]
-          obtain ⟨i1, i2⟩ := ih a
-          refine ⟨i1, ?_⟩
-          intro w hw
-          rcases List.mem_cons.mp hw with rfl | hw
-          · exact le_trans i1 (not_lt.mp hz)
-          · exact i2 w hw
-    rcases List.mem_cons.mp hx with rfl | hx
-    · exact (key ys x).1
-    · exact (key ys y).2 x hx
 
 theorem mapM_ok_mem {α β : Type} {f : α → Except Err β} : ∀ {l : List α} {r : List β}, l.mapM f = .ok r →
     ∀ x ∈ l, ∃ y ∈ r, f x = .ok y := by
@@ -160,6 +153,39 @@ theorem mapM_ok_mem {α β : Type} {f : α → Except Err β} : ∀ {l : List α
         · obtain ⟨y, hy, hfy⟩ := ih hr x hx
           exact ⟨y, List.mem_cons_of_mem _ hy, hfy⟩
 
+/-- `_find_best_votes` never raises -/
+theorem findBestVotes_ok (cv : WProfile) (c : Cand) : ∃ best, findBestVotes cv c = .ok best := ⟨_, rfl⟩
+
+/-- **`_find_best_votes`** returns exactly the ballots grading `cand` highest (all ballots giving the greatest grade `m`
+    that any ballot gives `cand`), and nothing iff nobody grades `cand` -/
+theorem findBestVotes_spec {cv : WProfile} {cand : Cand} {best : List SBallot} (h : findBestVotes cv cand = .ok best) :
+    (best = [] ∧ ∀ bw ∈ cv, ballotScore bw.1 cand = none) ∨
+    (∃ m, best = gradeGroup cv cand m ∧ best ≠ [] ∧ ∀ bw ∈ cv, ∀ s, ballotScore bw.1 cand = some s → s ≤ m) := by
+  unfold findBestVotes at h
+  simp only [pure, Except.pure] at h
+  injection h with h
+  replace h : (cv.foldl (fbStep cand) ([], none)).1 = best := h
+  have hinv := fbInv_foldl (cand := cand) cv [] ([], none) ⟨rfl, by simp⟩
+  simp only [List.nil_append] at hinv
+  set acc := cv.foldl (fbStep cand) ([], none) with hacc
+  unfold FbInv at hinv
+  cases ho : acc.2 with
+  | none =>
+    rw [ho] at hinv
+    left
+    exact ⟨by rw [← h]; exact hinv.1, hinv.2⟩
+  | some m =>
+    rw [ho] at hinv
+    obtain ⟨i1, i2, bw, hbw, hbs⟩ := hinv
+    right
+    refine ⟨m, by rw [← h, i2], ?_, i1⟩
+    rw [← h, i2]
+    intro hnil
+    unfold gradeGroup at hnil
+    rw [List.map_eq_nil_iff, List.filter_eq_nil_iff] at hnil
+    have := hnil bw hbw
+    simp [hbs] at this
+
 theorem ballotScore_mem {b : SBallot} {c : Cand} {s : Rat} (h : ballotScore b c = some s) : (c, s) ∈ b := by
   unfold ballotScore at h
   cases hf : b.find? (fun p => decide (p.1 = c)) with
@@ -172,71 +198,6 @@ theorem ballotScore_mem {b : SBallot} {c : Cand} {s : Rat} (h : ballotScore b c 
     simp only [decide_eq_true_eq] at hp
     have : p = (c, s) := Prod.ext hp h
     rw [← this]; exact hm
-
-/-- **`_find_best_votes`**: when it does not raise, it returns exactly the ballots grading `cand` highest (all ballots
-    giving the greatest grade `m` that any ballot gives `cand`), and nothing iff nobody grades `cand` -/
-theorem findBestVotes_spec {cv : WProfile} {cand : Cand} {best : List SBallot} (h : findBestVotes cv cand = .ok best) :
-    (best = [] ∧ ∀ bw ∈ cv, ballotScore bw.1 cand = none) ∨
-    (∃ m, best = gradeGroup cv cand m ∧ best ≠ [] ∧ ∀ bw ∈ cv, ∀ s, ballotScore bw.1 cand = some s → s ≤ m) := by
-  unfold findBestVotes at h
-  cases hmins : cv.mapM (fun bw => listMin (bw.1.map (·.2))) with
-  | error e => rw [hmins] at h; cases h
-  | ok mins =>
-    rw [hmins] at h
-    simp only [bind, Except.bind] at h
-    cases hstart : listMin mins with
-    | error e => rw [hstart] at h; cases h
-    | ok start =>
-      rw [hstart] at h
-      simp only [pure, Except.pure] at h
-      injection h with h
-      have hinv := fbInv_foldl (cand := cand) (start := start) cv [] ([], start)
-        ⟨by simp, by simp [gradeGroup], Or.inl rfl⟩
-      simp only [List.nil_append] at hinv
-      replace h : (cv.foldl (fbStep cand) ([], start)).1 = best := h
-      set acc := cv.foldl (fbStep cand) ([], start) with hacc
-      obtain ⟨i1, i2, i3⟩ := hinv
-      -- start is below every grade on every ballot
-      have hstart_le : ∀ bw ∈ cv, ∀ s, ballotScore bw.1 cand = some s → start ≤ s := by
-        intro bw hbw s hs
-        obtain ⟨y, hy, hfy⟩ := mapM_ok_mem hmins bw hbw
-        have h1 : start ≤ y := listMin_le hstart y hy
-        have h2 : y ≤ s := listMin_le hfy s (List.mem_map.mpr ⟨(cand, s), ballotScore_mem hs, rfl⟩)
-        exact le_trans h1 h2
-      by_cases hsup : ∀ bw ∈ cv, ballotScore bw.1 cand = none
-      · left
-        refine ⟨?_, hsup⟩
-        rw [← h, i2]
-        unfold gradeGroup
-        rw [List.map_eq_nil_iff, List.filter_eq_nil_iff]
-        intro bw hbw
-        simp [hsup bw hbw]
-      · right
-        refine ⟨acc.2, by rw [← h, i2], ?_, i1⟩
-        rw [← h, i2]
-        have hex : ∃ bw ∈ cv, ballotScore bw.1 cand = some acc.2 := by
-          rcases i3 with i3 | i3
-          · -- the scan never moved: some supporter grades exactly `start`
-            have : ∃ bw ∈ cv, ∃ s, ballotScore bw.1 cand = some s := by
-              by_contra hno
-              apply hsup
-              intro bw hbw
-              cases hb : ballotScore bw.1 cand with
-              | none => rfl
-              | some s => exact absurd ⟨bw, hbw, s, hb⟩ hno
-            obtain ⟨bw, hbw, s, hs⟩ := this
-            have h1 := i1 bw hbw s hs
-            have h2 := hstart_le bw hbw s hs
-            rw [i3] at h1
-            have : s = start := le_antisymm h1 h2
-            exact ⟨bw, hbw, by rw [hs, this, i3]⟩
-          · exact i3
-        obtain ⟨bw, hbw, hbs⟩ := hex
-        intro hnil
-        unfold gradeGroup at hnil
-        rw [List.map_eq_nil_iff, List.filter_eq_nil_iff] at hnil
-        have := hnil bw hbw
-        simp [hbs] at this
 
 end VL.Score
 
